@@ -648,6 +648,14 @@ static void gen(Emitter &em, const Options &opt) {
             if (sc != std::string::npos) { ops += ";" + last.substr(0, sc); last = last.substr(sc + 1); }
             out.flt("fault", ops, last, k);
         }
+        // a stream that went to the heap and was then emptied or shrunk (capacity stays): the next growth beyond that capacity fails
+        for (size_t pre : {(size_t)300, (size_t)600, (size_t)1100}) {
+            std::vector<std::string> shrinks = {"t0,0", "u0", "e0," + U(pre), "e0," + U(pre + 7), "t0,1", "t0,255", "t0,256", "e0," + U(pre - 1), "t0,0;a0:21", "u0;D2;M2,0;X2"};
+            for (const std::string &sh : shrinks) for (const char *lo : {"g0,5000,6", "c0,3000,66", "g0,2049,7", "o0,std:" "4142434445464748494a4b4c4d4e4f50"}) for (int k = 1; k <= 2; ++k) {
+                std::string ops = "D0;g0," + U(pre) + ",4;D1;" + sh;
+                out.flt("fault.shrunk", ops, lo, k);
+            }
+        }
         // long wide text: the conversion's own buffer is the first allocation, the stream's growth the second
         for (size_t pre : {(size_t)0, (size_t)250, (size_t)600}) for (int k = 1; k <= 3; ++k) for (const char *kind : {"u16std", "wsv", "u32s"}) {
             G g; std::string ops = "D0"; if (pre) ops += ";g0," + U(pre) + ",4";
